@@ -81,16 +81,46 @@ def _subterms(t):
         yield from _subterms(c)
 
 
+_LOOPS = ("Select", "Where", "SelectMany", "Aggregate", "Count", "Sum", "Min", "Max", "First")
+
+
+def _base(t):
+    """What a sequence expression ultimately iterates: the (collection, bank) or parameter at the bottom of
+    its chain of Select / Where / SelectMany steps (through a lambda applied on the spot: its body)."""
+    while True:
+        if t["k"] == "Coll":
+            return "Coll:%s/%s" % (t["a"], t["b"])
+        if t["k"] == "Var":
+            return "Var:" + t["a"]
+        if t["k"] == "Let":
+            t = t["ch"][1]
+        elif t["k"] in ("Select", "Where", "SelectMany") and t["ch"]:
+            t = t["ch"][0]
+        else:
+            return None
+
+
 def feature_selfjoin(t):
-    """A sequence operator whose body iterates the very sequence it is already iterating
-    (same parameter or same collection and bank)."""
+    """A sequence operator whose body (or, for SelectMany, whose inner sequence) iterates the very
+    sequence it is already iterating: same parameter or same collection and bank at the bottom of both."""
     for n in _subterms(t):
-        if n["k"] in ("Select", "Where", "SelectMany", "Aggregate") and n["ch"][0]["k"] in ("Var", "Coll"):
-            src = json.dumps(n["ch"][0], sort_keys=True)
-            for body in n["ch"][1:]:
+        if n["k"] in _LOOPS and n["ch"]:
+            src = _base(n["ch"][0])
+            if src is None:
+                continue
+            inner = list(n["ch"][1:])
+            # the steps of the source chain run inside this loop as well
+            c = n["ch"][0]
+            while c["k"] in ("Select", "Where", "SelectMany", "Let") and c["ch"]:
+                inner += c["ch"][1:] if c["k"] != "Let" else [c["ch"][0]]
+                c = c["ch"][1] if c["k"] == "Let" else c["ch"][0]
+            for body in inner:
+                if n["k"] == "SelectMany" and _base(body) == src:
+                    return True
                 for m in _subterms(body):
-                    if m["k"] in ("Select", "Where", "SelectMany", "Aggregate", "Count", "Sum", "Min", "Max", "First") \
-                            and json.dumps(m["ch"][0], sort_keys=True) == src:
+                    if m["k"] in _LOOPS and m["ch"] and _base(m["ch"][0]) == src:
+                        return True
+                    if m["k"] == "SelectMany" and len(m["ch"]) > 1 and _base(m["ch"][1]) == src:
                         return True
     return False
 
